@@ -164,6 +164,62 @@ theorem last_call_wins (a : SetterId) (b1 b2 : Bool) (n1 n2 : Int) (cfg c1 c2 : 
   rw [(call_ok _ _ _ _ _ h2).1, (call_ok _ _ _ _ _ h1).1, call_of_ok a b2 n2 cfg (call_ok _ _ _ _ _ h2).2]
   cases a <;> rfl
 
+/-- a sequence of setter calls, each with the argument of its own kind; `none` as soon as one of them raises -/
+def runCalls : List (SetterId × Bool × Int) → Config → Option Config
+  | [], cfg => some cfg
+  | (id, b, n) :: rest, cfg =>
+    match call id b n cfg with
+    | some (.ok c) => runCalls rest c
+    | _ => none
+
+/-- the call raises: a zero threshold -/
+def callBad (id : SetterId) (n : Int) : Prop := (id = .minRepetitions ∨ id = .minSubstringLength) ∧ n = 0
+
+instance (id : SetterId) (n : Int) : Decidable (callBad id n) := by unfold callBad; exact inferInstance
+
+theorem runCalls_cons (id : SetterId) (b : Bool) (n : Int) (rest : List (SetterId × Bool × Int)) (cfg : Config) :
+    runCalls ((id, b, n) :: rest) cfg = if callBad id n then none else runCalls rest (callCfg id b n cfg) := by
+  by_cases hb : callBad id n
+  · rw [if_pos hb]
+    simp only [runCalls]
+    cases hc : call id b n cfg with
+    | none => rfl
+    | some r =>
+      cases r with
+      | error m => rfl
+      | ok c => exact absurd hb.2 ((call_ok id b n cfg c hc).2 hb.1)
+  · rw [if_neg hb]
+    have hn : (id = .minRepetitions ∨ id = .minSubstringLength) → n ≠ 0 := fun h1 h2 => hb ⟨h1, h2⟩
+    simp only [runCalls, call_of_ok id b n cfg hn]
+
+/-- **C10 (order of settings, any number of calls)** a sequence of calls of pairwise different setters — thresholds with any argument, the
+escaping switch with either flag — leaves the same configuration in every order, and raises in every order if it raises in one -/
+theorem calls_perm {l1 l2 : List (SetterId × Bool × Int)} (hp : l1.Perm l2) :
+    (l1.map (·.1)).Nodup → ∀ cfg, runCalls l1 cfg = runCalls l2 cfg := by
+  induction hp with
+  | nil => intro _ _; rfl
+  | cons x _ ih =>
+    intro hnd cfg
+    obtain ⟨id, b, n⟩ := x
+    simp only [List.map_cons, List.nodup_cons] at hnd
+    rw [runCalls_cons, runCalls_cons]
+    split
+    · rfl
+    · exact ih hnd.2 _
+  | swap x y l =>
+    intro hnd cfg
+    obtain ⟨ix, bx, nx⟩ := x
+    obtain ⟨iy, by', ny⟩ := y
+    simp only [List.map_cons, List.nodup_cons, List.mem_cons, not_or] at hnd
+    have hne : iy ≠ ix := hnd.1.1
+    rw [runCalls_cons, runCalls_cons, runCalls_cons, runCalls_cons]
+    by_cases h1 : callBad iy ny <;> by_cases h2 : callBad ix nx <;> simp only [h1, h2, if_true, if_false]
+    rw [callCfg_commute iy ix hne by' bx ny nx cfg]
+  | trans h12 _ ih1 ih2 =>
+    intro hnd cfg
+    have hnd2 := (List.Perm.nodup_iff (h12.map (·.1))).mp hnd
+    rw [ih1 hnd cfg, ih2 hnd2 cfg]
+
 /-- no setter switches the case-insensitive option off again -/
 theorem call_keeps_ci (a : SetterId) (b : Bool) (n : Int) (cfg c1 : Config) (h : call a b n cfg = some (.ok c1))
     (hci : cfg.ci = true) : c1.ci = true := by
@@ -349,6 +405,9 @@ theorem history_outputs_from (env : Env) (hl : LowerIdem env) (ws0 : List Str) (
   history_outputs env hl ws0 ops ⟨ws0, {}⟩ [] (fun _ _ => rfl)
 
 /-! non-vacuity -/
+example : runCalls [(.digits, false, 0), (.minRepetitions, false, 3), (.escaping, true, 0)] {} =
+    some { digit := true, minRep := 3, esc := true, sur := true } := by decide
+example : runCalls [(.minRepetitions, false, 0), (.digits, false, 0)] {} = none := by decide
 example : LowerIdem ⟨id, fun w => w.map (fun c => [c])⟩ := fun _ => rfl
 example : sortCases [strOf "b", strOf "a", strOf "b", strOf "ab"] = [strOf "a", strOf "b", strOf "ab"] := by decide
 example : sortCases [strOf "ab", strOf "b", strOf "a"] = sortCases [strOf "b", strOf "a", strOf "b", strOf "ab"] := by decide
